@@ -591,7 +591,7 @@ def label_name_rules(m, rid):
     try:
         for text, want in (("10 continue", (10, "continue")), ("  20   x = 1", (20, "x = 1")), ("x = 10", (None, "x = 10")),
                            ("100 format(1x)", (100, "format(1x)")), ("10x = 1", (None, "10x = 1")),
-                           ("30 &", (30, "&"))):
+                           ("30 &", (30, "&")), ("1 2 3", (1, "2 3")), ("0 0 7", (0, "0 7")), ("10 20 continue", (10, "20 continue"))):
             r.instances += 1
             got = ev.run_function(el.node, [text])
             ok = got == want
